@@ -9,8 +9,10 @@ git -C /repo worktree add -q --detach $WT HEAD || exit 2
 trap 'git -C /repo worktree remove --force $WT >/dev/null 2>&1' EXIT
 if ! git -C $WT apply $D/patch.diff 2>/dev/null; then echo "$ID: patch does not apply"; exit 0; fi
 ( cd $WT && PATH=/opt/veriftools/go1.26.8/bin:$PATH GOFLAGS=-mod=mod GOPROXY=off GOTOOLCHAIN=local go build ./... ) >/dev/null 2>&1 || { echo "$ID: does not build"; exit 0; }
-OUT=$(FGA_REPO=$WT VERIF_NOCACHE=1 /verif/bin/fgalint all 2>&1 | grep -E "^== |\[violated\]|BLIND|error|panic" | grep -B1 -E "violated|BLIND|error|panic" | grep -v "^--")
-mkdir -p /verif/benign/$ID; cp $D/patch.diff /verif/benign/$ID/; [ -f $D/notes.md ] && cp $D/notes.md /verif/benign/$ID/
+RAW=$(FGA_REPO=$WT VERIF_NOCACHE=1 /verif/bin/fgalint all 2>&1); RC=$?
+OUT=$(echo "$RAW" | grep -E "\[violated\]|BLIND|^panic:|^goroutine ")
+if [ $RC -ne 0 ] && [ -z "$OUT" ]; then OUT="tool exit $RC: $(echo "$RAW" | tail -3)"; fi
+mkdir -p /verif/benign/$ID; [ "$(readlink -f $D)" != "/verif/benign/$ID" ] && { cp $D/patch.diff /verif/benign/$ID/; [ -f $D/notes.md ] && cp $D/notes.md /verif/benign/$ID/; }
 if [ -z "$OUT" ]; then
   echo "$ID: silent"
   echo '{"id":"'$ID'","alarms":[]}' > /verif/benign/$ID/meta.json
@@ -19,6 +21,6 @@ else
   python3 - "$ID" <<PY
 import json,sys
 out="""$OUT"""
-json.dump({"id":sys.argv[1],"alarms":[l.strip() for l in out.splitlines() if 'violated' in l or 'BLIND' in l or 'panic' in l or 'error' in l]},open('/verif/benign/%s/meta.json'%sys.argv[1],'w'),indent=1)
+json.dump({"id":sys.argv[1],"alarms":[l.strip() for l in out.splitlines() if l.strip()]},open('/verif/benign/%s/meta.json'%sys.argv[1],'w'),indent=1)
 PY
 fi
